@@ -91,7 +91,7 @@ def mk_headers(vc, n, prefix="", alphabet=False):
     """Pre-state collection with n fields. Names are arbitrary symbolic bytes; with alphabet=True the scenario is
     additionally explored with every assignment of concrete names from ALPHA (n <= 3): there bytes.lower() is computed,
     not abstracted, so a broken case-folding yields a counter-model that replays on the real code."""
-    mode = vc.case("names", ["symbolic", "alphabet"]) if alphabet else "symbolic"
+    mode = vc.case("names", ["alphabet", "symbolic"]) if alphabet else "symbolic"  # alphabet first: its counter-models replay
     vc._c35_mode = mode
     if mode == "symbolic":
         names, vals, fields = mk_fields(vc, n, prefix)
@@ -454,7 +454,7 @@ def cut(vc, name, cond):
 
 
 def index_of(vc, hay, needle):
-    if vc.mode == "native":
+    if vc.mode == "native" or isinstance(hay, bytes):
         return hay.find(needle)
     import z3
     from pyvc.core import _z
@@ -466,18 +466,27 @@ def valid_field(vc, name, value):
     leading/trailing whitespace): non-empty name without ':' that does not start with SP/HTAB; value neither starts nor ends
     with ASCII whitespace."""
     ws = b" \t\n\r\x0b\x0c"
-    if vc.mode == "native":
+    if vc.mode == "native" or isinstance(name, bytes):
         return len(name) > 0 and b":" not in name and name[:1] not in (b" ", b"\t") and (value == b"" or (value[:1] not in [bytes([c]) for c in ws] and value[-1:] not in [bytes([c]) for c in ws]))
     import z3
     from pyvc.libx_httpmodel import is_ws_free_ends
     return And(len_(name) > 0, Not(contains(name, b":")), code_at(name, 0) != 0x20, code_at(name, 0) != 0x09, SBool(is_ws_free_ends(value.t)))
 
 
+RT_FIELDS = [(b"Host", b"example.com"), (b"a", b""), (b"x-Y", b"a: b\tc")]
+
+
 def _mk_roundtrip(n):
     @scenario(f"read_headers.roundtrip[fields={n}]", functions=["mitmproxy.net.http.http1.read:_read_headers", H + ".__init__", H + ".__bytes__", MD + ".__eq__"],
               strip_lemmas=True, z3_timeout_ms=700)
     def s_roundtrip(vc):
-        h, names, vals = mk_headers(vc, n)
+        if n and n <= 2 and vc.case("fields", ["concrete", "symbolic"]) == "concrete":
+            # a few concrete valid fields first (everything is computed, counter-models replay)
+            chosen = [vc.case(f"field{i}", RT_FIELDS) for i in range(n)]
+            names, vals = [c[0] for c in chosen], [c[1] for c in chosen]
+            h = vc.new(H, fields=tuple(chosen))
+        else:
+            h, names, vals = mk_headers(vc, n)
         for i in range(n):
             vc.assume(valid_field(vc, names[i], vals[i]))
         ser = vc.call(H + ".__bytes__", h)
